@@ -170,9 +170,7 @@ def gen_damages(rng, subj, tier):
     if subj["kind"] in ("ao", "al"):
         base = 68 if subj["kind"] == "al" else 0
         hdr = list(range(0, base + 165))
-        if tier == "quick":
-            hdr = rng.sample(hdr, 40)
-        for o in hdr:
+        for o in hdr:		# every header / section-table / archive-header byte, in every tier
             for v in (SUBST_VALUES if tier == "thorough" else (rng.choice(SUBST_VALUES),)):
                 offs[(o, v)] = 1
         for lo, hi, nm in subj["regions"]:
